@@ -189,7 +189,10 @@ impl MaxCharsCommandSizeLimiter {
         const MAX_ARG_PAGES: usize = 32;
         // Besides argv[0] the kernel copies the name of the file it executes
         // (found through PATH, or the command as given) into the same space.
-        const FILE_NAME_ROOM: usize = uucore::libc::PATH_MAX as usize;
+        // For a `#!` script it copies that name a second time, as the
+        // interpreter's argument, together with the interpreter line.
+        const INTERPRETER_LINE_ROOM: usize = 256;
+        const FILE_NAME_ROOM: usize = 2 * uucore::libc::PATH_MAX as usize + INTERPRETER_LINE_ROOM;
         let arg_max = unsafe { uucore::libc::sysconf(uucore::libc::_SC_ARG_MAX) } as usize;
         let page_size = unsafe { uucore::libc::sysconf(uucore::libc::_SC_PAGESIZE) } as usize;
 
